@@ -26,6 +26,8 @@ func init() {
 			{ID: "C20.R2", Text: "callbacks: Resolve exactly once and before any send on every path; sends fit the channel capacity; every awaited channel is sent to on every path", Run: c20r2},
 			{ID: "C20.R3", Text: "the callback's error reaches the wrapper's error result; results are dereferenced only under err==nil", Run: c20r3},
 			{ID: "C20.R24", Text: "what Ping counts as an answer: the endpoint pickers of the Ping callback hand out an entry's address only after seeing its Error nil and its State PingStateOK, and the empty string otherwise (same rule as C19.R12)", Run: endpointsAreHealthy},
+			{ID: "C20.R25", Text: "a wrapper is held up by nothing but its operation: in every function that issues an asynchronous gocbcore operation each wait is the operation record own Wait/Resolve or on a channel made by that call for its result — no shared limiter, lock or queue in front of or around the operation (such a wait has no deadline)", Run: wrappersWaitOnlyForTheirOp},
+			{ID: "C20.R26", Text: "a refusal or silence is classified by its own error: every read of an errors.As target is reached only through the true result of an errors.As on that target — no classification left over from an earlier error, iteration or call", Run: errorsAsFresh},
 			{ID: "C20.R5", Text: "Ping reports success only when both the data and the management service answered: the error handed to the waiter is non-nil ⇔ the operation failed ∨ either endpoint is missing", Run: pingOutcome},
 			{ID: "C20.R6", Text: "checkpoint writes are confirmed or reported: every storage primitive's error in the Metadata.Save backends reaches the result (same rule as C05.R5)", Run: c05r5},
 			{ID: "C20.R7", Text: "a deadline is a timeout, not a schedule: no configuration option that the module uses as a period (ticker, sleep, timer delay) bounds an operation, and the ping is bounded by HealthCheck.Timeout", Run: c20r7},
